@@ -30,6 +30,25 @@ def short_adt(a):
     return a.rsplit("::", 1)[-1]
 
 
+class core_reporter_prefix:
+    """Reporter view that prefixes instance keys (to keep keys of different writers apart)."""
+
+    def __init__(self, R, prefix):
+        self.R, self.prefix = R, prefix
+
+    def check(self, cond, inst, *a, **k):
+        return self.R.check(cond, f"{self.prefix}/{inst}", *a, **k)
+
+    def violation(self, inst, *a, **k):
+        return self.R.violation(f"{self.prefix}/{inst}", *a, **k)
+
+    def ok(self, inst, *a, **k):
+        return self.R.ok(f"{self.prefix}/{inst}", *a, **k)
+
+    def unverifiable(self, inst, *a, **k):
+        return self.R.unverifiable(f"{self.prefix}/{inst}", *a, **k)
+
+
 # ---- R1 ---------------------------------------------------------------------------------------------
 
 def r1(F, R):
@@ -193,6 +212,15 @@ def r3(F, R):
                     R.violation(inst, w.site, f"`{w.name}` (retried steps) is not incremented exactly on the retry-left edge: {rg and rg[0]}")
                 else:
                     R.ok(inst, w.site, "retried counter incremented only when a retry is left")
+        # no failure event may slip through uncounted: every path of a failure arm updates a verdict (or retried) counter
+        nm = lambda g: ".".join(getters[g])
+        mandatory = {
+            ("event::Step", "Failed"): {nm("failed_steps"), nm("retried_steps")},
+            ("event::Hook", "Failed"): {nm("hook_errors")},
+            ("std::result::Result", "Err"): {nm("parsing_errors")},
+        }
+        sub = core_reporter_prefix(R, short_adt(adt))
+        W.check_mandatory(F, sub, adt, writes, mandatory)
     R.floor(3)
 
 
@@ -346,5 +374,49 @@ def r7(F, R):
     R.floor(1)
 
 
-RULES = [("R1", r1, None), ("R2", r2, None), ("R3", r3, None), ("R4", r4, None), ("R5", r5, ["all", "libtest"]),
+def r8(F, R):
+    """Every parser error reaches the writers: in the ingestion loop's Err arm the error value is sent on every path."""
+    ing = roles.insert_features(F)
+    sends = roles.sends(F, [ing])
+    err_sends = []
+    for s, t in sends:
+        sl = A.slice_back(ing, [t["args"][1]], stop_calls=[r"Future::poll$"])
+        errs = [rv for _, rv in sl.aggs if rv.get("adt") == "std::result::Result" and rv["variant"] == "Err"]
+        if errs:
+            err_sends.append((s, t, sl))
+    R.check(len(err_sends) == 1, "error-send-site", ing, "one send of Err(e)", f"{len(err_sends)} sends of a parser error in the ingestion loop")
+    if len(err_sends) != 1:
+        return
+    s, t, sl = err_sends[0]
+    # the value sent is the stream item's Err payload
+    nx = [a for a in A.awaits(ing) if re.search(r"stream::Next<", a.fut_type)]
+    R.check(len(nx) == 1 and nx[0].poll_site in sl.sites, "error-is-stream-item", s, "Err(e) forwards the parser's error value", "the error sent is not the parser's error value")
+    # every path through the Err arm passes the send
+    entries = W.arm_entry_targets(ing, "std::result::Result", "Err")
+    # only the switch on the stream item
+    item_entries = []
+    for sw, tg in entries:
+        l = A.op_local(ing.blocks[sw]["term"]["discr"]) if False else None
+        d = A.local_def_desc(ing, op_local(ing.blocks[sw]["term"]["discr"]))
+        if d[0] == "discr" and "gherkin::Feature" in ing.locals[A.canon_place(ing, d[1])["l"]]:
+            item_entries.append((sw, tg))
+    R.check(len(item_entries) == 1, "error-arm-found", ing, "", f"{len(item_entries)} Err arms on the stream item")
+    for sw, tg in item_entries:
+        seen, work, bad = set(), [tg], False
+        loop_head = nx[0].poll_site.bb if nx else -1
+        while work:
+            x = work.pop()
+            if x in seen or x == s.bb:
+                continue
+            seen.add(x)
+            if x == loop_head or ing.blocks[x]["term"]["k"] == "return" or any(ss == sends[-1][0].bb for ss in [x] if sends and sends[-1][0] != s):
+                bad = True
+                break
+            work.extend(ing.succ[x])
+        R.check(not bad, "error-sent-on-every-path", s, "every path through the Err arm sends the error",
+                "a path through the Err arm skips sending the parser error (e.g. short-circuited by fail_fast): the writers never see it and the run is not reported failed")
+    R.floor(4)
+
+
+RULES = [("R8", r8, None), ("R1", r1, None), ("R2", r2, None), ("R3", r3, None), ("R4", r4, None), ("R5", r5, ["all", "libtest"]),
          ("R6", r6, None), ("R7", r7, None)]
